@@ -531,10 +531,12 @@ def make_machine(cls, tier, col):
             self.image = None
             self.ops = []
             self.dead = False
+            self.huge_left = 0
 
-        @initialize(image=image_spec(cls, tier))
-        def setup(self, image):
+        @initialize(image=image_spec(cls, tier), huge=st.integers(0, 9))
+        def setup(self, image, huge):
             self.image = image
+            self.huge_left = 1 if huge == 0 else 0  # one history in ten gets a single request of tens of MiB
             try:
                 self.r = Runner(cls, image)
             except OpenFailed as e:
@@ -706,6 +708,15 @@ def make_machine(cls, tier, col):
                 count = (8 << 20) // n
             start = (k % 3) * stride
             self.do(["sweep", start, stride, count, delta, n])
+
+        @precondition(lambda self: self.alive() and self.huge_left and self.r.o.size > (34 << 20))
+        @rule(n=st.sampled_from([(32 << 20) + 1, (33 << 20) + 4097, 70 << 20]), k=st.integers(0, 10000), d=st.sampled_from([0, 512, BUFSIZE + 1]))
+        def huge_read(self, n, k, d):
+            """One very long request in a single call (per-call caps, scratch buffers shared between calls)."""
+            self.huge_left = 0
+            o = self.r.o
+            off = min(max(0, o.points[k % len(o.points)] - 4096 + d), max(0, o.size - n))
+            self.do(["readoffset", off, n])
 
         @precondition(lambda self: self.alive() and getattr(self.r.o, "views", None))
         @rule(i=st.integers(0, 3))
